@@ -84,10 +84,10 @@ Print Assumptions cfg_generate_never_raises.
 (* ------------------------------------------------------------------ biclosed -> rigid *)
 (* side conditions: `box_good` = the box was built by the public constructors
    without error (FA, BA with any -- composite, empty, slash -- left argument, FC,
-   BC, FX, BX, plain boxes, Curry of a well-typed diagram of such boxes with, for
-   right currying, 0 <= n_wires <= len(dom) as documented; n_wires = 0 and
-   curried types translating to Ty() included); `diagram_good` = a well-typed
-   diagram of such boxes.  Slash types are arbitrarily nested with composite sides. *)
+   BC, FX, BX, plain boxes, Curry -- either side, any n_wires: 0, over-long and
+   negative included, curried types translating to Ty() included -- of a
+   well-typed diagram of such boxes); `diagram_good` = a well-typed diagram of
+   such boxes.  Slash types are arbitrarily nested with composite sides. *)
 
 (* the image of every such box is well-typed and goes from the image of its
    domain to the image of its codomain *)
@@ -112,22 +112,18 @@ Theorem biclosed2rigid_never_refused : forall D, diagram_good D = true -> exists
 Proof. exact b2r_total. Qed.
 Print Assumptions biclosed2rigid_never_refused.
 
-(* whatever the public constructors accept satisfies the side conditions except
-   possibly the range of n_wires of a right currying *)
-Theorem constructors_build_well_typed_diagrams : forall dom cod bs offs D,
-  build dom cod bs offs = Ok D -> diagram_built D = true.
+(* whatever the public constructors accept satisfies the side conditions: the
+   four theorems above apply to every biclosed diagram that can be built *)
+Theorem constructors_build_good_diagrams : forall dom cod bs offs D,
+  build dom cod bs offs = Ok D -> diagram_good D = true.
 Proof. exact build_built. Qed.
-Print Assumptions constructors_build_well_typed_diagrams.
+Print Assumptions constructors_build_good_diagrams.
 
-(* that range condition cannot be dropped: right currying with n_wires >
-   len(dom) (outside the documented range) builds a Curry box whose image has
-   the wrong domain, and the translation of the one-box diagram is refused *)
-Theorem curry_overlong_refuted :
-  exists dom cod bs offs D b d,
-    build dom cod bs offs = Ok D /\ bs = [b] /\ b2r D = Err AxiomError /\
-    f_box b = Ok d /\ ddom d <> F_ty (xdom b).
-Proof. exact curry_overlong_refuted_lemma. Qed.
-Print Assumptions curry_overlong_refuted.
+Theorem built_diagrams_translate_type_preserving : forall dom cod bs offs D,
+  build dom cod bs offs = Ok D ->
+  exists d, b2r D = Ok d /\ wf d /\ ddom d = F_ty dom /\ dcod d = F_ty cod.
+Proof. exact build_b2r_typed. Qed.
+Print Assumptions built_diagrams_translate_type_preserving.
 
 (* the object map is a monoid homomorphism sending slashes to adjoints *)
 Theorem object_map_tensor : forall a b, F_ty (a ++ b) = F_ty a ++ F_ty b.
